@@ -15,6 +15,14 @@ import traceback
 
 sys.path.insert(0, os.path.dirname(os.path.abspath(__file__)))
 
+# The registered commands always verify /repo (the editable install in /venv imports its working
+# tree).  VERIF_REPO=<dir> points a run at another checkout instead; it is used only for trials of
+# seeded changes in scratch worktrees (tools/run_seeded.py), never by a registered command.
+_alt = os.environ.get("VERIF_REPO")
+if _alt:
+    sys.path.insert(0, _alt)
+    os.environ["PYTHONPATH"] = _alt + (os.pathsep + os.environ["PYTHONPATH"] if os.environ.get("PYTHONPATH") else "")
+
 import common  # noqa: E402
 
 
@@ -65,8 +73,15 @@ def main(argv):
             ctx.driver_ok = rc == 0
         else:
             ctx.driver_ok = True
+        import drift
+
+        ctx.drift = drift.drift(prop, getattr(mod, "ANCHORS", ()))
+        if ctx.drift:
+            # auxiliary only: concentrate the search where the source changed (DESIGN §2.3)
+            ctx.boost = max(ctx.boost, 4)
+            ctx.notes.append("source drift against harness/anchors.json (budget x4): " + ", ".join(ctx.drift[:12]))
         mod.run(ctx)
-        if ctx.disagreements and not ctx.failures and ctx.boost == 1:
+        if ctx.disagreements and not ctx.failures and ctx.boost < 8:
             ctx.boost = 8
             ctx.notes.append("correspondence differs: failing-input search with boosted budget")
             ctx.search_only = True
